@@ -15,10 +15,23 @@
      never an error for an absent pair — provided the reader's offset counter is in step with the file position
      (that is the repaired code: /repo commit 7dc2b09; before it the counter stayed at 16 after the seek and an
      absent key above every stored hash ended in an EOF error: known_findings.txt, C14/lookup-error-for-absent-key).
-  Partial: the header round trip, the choice of the start entry in the sparse index and the merge specification
-  (greatest position per key; every same-hash group reported) are validated by the correspondence, not proved.
+   * MERGE (GoBeans/Model/HintMerge.lean — the k-way loop of store/hintmerge.go step by step: open every source, the
+     priority queue with Go's container/heap Init/Pop/Push transcribed and PROVED to be a priority queue for the
+     code's `Less`, the writer's last-item / same-key / same-hash bookkeeping, the final flush; tied to the real
+     `merge` by engine `hint`, incl. inputs with repeated chunk ids): for all sources that are non-empty and
+     strictly sorted by (hash, key) the merge ends normally (`C14_merge_total`; it panics iff some source is empty),
+     the output is strictly sorted with no key twice, contains only source items, and for every key the entry whose
+     (file, offset) position is greatest (`C14_merge_greatest_position`, exactly those without position ties:
+     `C14_merge_exact`); an item is reported to the collision table iff it is written and another key shares its
+     hash (`C14_merge_reports_collisions`); without ties the code computes exactly the functional specification
+     `Hint.merge` (`C14_merge_is_spec`), whatever the queue.
+  Partial: the header round trip and the choice of the start entry in the sparse index are validated by the
+  correspondence, not proved.  A merge cut short (GC abort, read error) still flushes its collision reports, possibly
+  with a position that is not the greatest (`HintMergeLemmas.abort_stale`; notes/REPORT-hintmerge.md) — outside C14's
+  quantifier (completed merges).
 -/
 import GoBeans.Lemmas.HintFile
+import GoBeans.Lemmas.HintMerge
 open Hint HintLemmas
 
 theorem C14_item_roundtrip (it : Item) (hw : WF it) (rest : Bytes) :
@@ -36,6 +49,44 @@ theorem C14_lookup_total (kh : Nat) (key : Bytes) (items : List Item) (hw : ∀ 
     lookupFrom (pre ++ encAll items ++ post) (cnt + sizeAll items) kh key fuel pre.length cnt
       = .ok (items.find? (fun it => it.khash == kh && it.key == key)) :=
   lookupFrom_sorted kh key items hw hs pre post cnt fuel hf
+
+/-! merge (the real k-way heap merge, `HintMerge.kway HintMerge.goHeap`) -/
+
+theorem C14_merge_total (srcs : List (Nat × List Item)) (hok : HintMerge.srcsOK srcs = true) :
+    ∃ out coll, HintMerge.kway HintMerge.goHeap srcs = .ok out coll :=
+  HintMergeLemmas.merge_total HintMergeLemmas.goLaws srcs hok
+
+theorem C14_merge_panics_iff_empty_source (srcs : List (Nat × List Item)) :
+    HintMerge.kway HintMerge.goHeap srcs = .panic ↔ ∃ s ∈ srcs, s.2 = [] :=
+  HintMergeLemmas.merge_panic_iff HintMerge.goHeap srcs
+
+/-- for each key: one entry, taken from a source, with the greatest (file, offset) position -/
+theorem C14_merge_greatest_position (srcs : List (Nat × List Item)) (hok : HintMerge.srcsOK srcs = true)
+    {out coll : List Item} (h : HintMerge.kway HintMerge.goHeap srcs = .ok out coll) :
+    (∀ x ∈ out, x ∈ HintMerge.allItems srcs)
+    ∧ (∀ x ∈ out, ∀ x' ∈ out, HintMergeLemmas.SameKey x x' → x = x')
+    ∧ (∀ y ∈ HintMerge.allItems srcs, ∃ x ∈ out, HintMergeLemmas.SameKey x y ∧ posKey y ≤ posKey x) :=
+  ⟨HintMergeLemmas.merge_mem HintMergeLemmas.goLaws hok h, HintMergeLemmas.merge_unique HintMergeLemmas.goLaws hok h,
+   HintMergeLemmas.merge_greatest HintMergeLemmas.goLaws hok h⟩
+
+theorem C14_merge_exact (srcs : List (Nat × List Item)) (hok : HintMerge.srcsOK srcs = true)
+    (hnt : HintMerge.noTies (HintMerge.allItems srcs) = true) {out coll : List Item}
+    (h : HintMerge.kway HintMerge.goHeap srcs = .ok out coll) (x : Item) :
+    x ∈ out ↔ x ∈ HintMerge.allItems srcs ∧ ∀ y ∈ HintMerge.allItems srcs, HintMergeLemmas.SameKey x y → posKey y ≤ posKey x :=
+  HintMergeLemmas.merge_exact HintMergeLemmas.goLaws hok hnt h x
+
+/-- every member of every group of different keys sharing a hash is reported; nothing of a singleton group is -/
+theorem C14_merge_reports_collisions (srcs : List (Nat × List Item)) (hok : HintMerge.srcsOK srcs = true)
+    {out coll : List Item} (h : HintMerge.kway HintMerge.goHeap srcs = .ok out coll) (x : Item) :
+    x ∈ coll ↔ x ∈ out ∧ ∃ y ∈ HintMerge.allItems srcs, y.khash = x.khash ∧ y.key ≠ x.key :=
+  HintMergeLemmas.merge_coll_iff HintMergeLemmas.goLaws hok h x
+
+/-- the code computes the functional specification (also when hintMgr.Merge passes one reader per chunk: different
+    chunk ids exclude ties) -/
+theorem C14_merge_is_spec (srcs : List (Nat × List Item)) (hok : HintMerge.srcsOK srcs = true)
+    (hd : HintMerge.distinctChunks srcs = true) :
+    HintMerge.kway HintMerge.goHeap srcs = .ok (Hint.merge srcs).1 (Hint.merge srcs).2 :=
+  HintMergeLemmas.go_merge_eq_spec srcs hok (HintMergeLemmas.noTies_of_distinctChunks srcs hok hd)
 
 /-! Non-vacuity and the former counterexample: three items, an index entry per item (interval 1);
     the absent hash 2^64-1 is "not found" with the counter in step (true) and an error with the historical
